@@ -3,7 +3,7 @@
 property and the extra checks listed below), record exit codes and reported violations in seeded/<id>/meta.json."""
 import json, os, re, subprocess, sys, time
 HERE = os.path.dirname(os.path.dirname(os.path.abspath(__file__)))
-EXTRA = {"C03-A": ["C09"], "C09-A": ["C03"], "C04-A": ["C06"], "C04-B": ["C10", "C09"], "C06-A": ["C04"], "C04-C": ["C06"], "C15-C": ["C01"], "C13-C": ["C18"], "C09-C": ["C03"], "C02-D": ["C01"], "C04-D": ["C03", "C09"], "C12-D": ["C07"], "C08-D": ["C19"], "C16-D": ["C08"], "C04-E": ["C05", "C06"], "C07-E": ["C11"], "C12-E": ["C07"], "C04-F": ["C11"], "C08-F": ["C07"], "C07-F": ["C16"], "C02-H": ["C01"], "C03-H": ["C02"], "C10-H": ["C04"], "C12-H": ["C07", "C09"], "C02-I": ["C01"], "C04-I": ["C06"], "C12-I": ["C07"], "C13-I": ["C01"], "C01-J": ["C02"], "C08-J": ["C16"], "C09-J": ["C03"], "C19-J": ["C08"], "C06-K": ["C05"]}
+EXTRA = {"C03-A": ["C09"], "C09-A": ["C03"], "C04-A": ["C06"], "C04-B": ["C10", "C09"], "C06-A": ["C04"], "C04-C": ["C06"], "C15-C": ["C01"], "C13-C": ["C18"], "C09-C": ["C03"], "C02-D": ["C01"], "C04-D": ["C03", "C09"], "C12-D": ["C07"], "C08-D": ["C19"], "C16-D": ["C08"], "C04-E": ["C05", "C06"], "C07-E": ["C11"], "C12-E": ["C07"], "C04-F": ["C11"], "C08-F": ["C07"], "C07-F": ["C16"], "C02-H": ["C01"], "C03-H": ["C02"], "C10-H": ["C04"], "C12-H": ["C07", "C09"], "C02-I": ["C01"], "C04-I": ["C06"], "C12-I": ["C07"], "C13-I": ["C01"], "C01-J": ["C02"], "C08-J": ["C16"], "C09-J": ["C03"], "C19-J": ["C08"], "C06-K": ["C05"], "C09-L": ["C03"]}
 NEEDS = {}
 def first_lines(path, n=6):
     try:
